@@ -48,7 +48,11 @@ pub fn gen_seq(rng: &mut Rng, len: usize, alpha: Alpha) -> String {
             }
         }
         Alpha::Dirty => {
-            const OTHER: &[u8] = b"NnRYKMSWBDHVXryk-.*";
+            // IUPAC codes, gaps, and any other printable byte (digits and
+            // punctuation share low bits with the nucleotide letters: '4' & 0x1f
+            // == 'T' & 0x1f ...); '>', '@' and '+' are left out because they are
+            // structural at the start of a line
+            const OTHER: &[u8] = b"NnRYKMSWBDHVXryk-.*NnNn0123456789!#$%&'()*,/:;<=?[]^_{|}~EFIJLOPQZefijlopqz";
             for _ in 0..len {
                 if rng.chance(1, 8) {
                     s.push(*rng.pick(OTHER) as char);
